@@ -29,4 +29,22 @@ theorem sig_wasabiti_eq (b0 rb1 t1 offset trec tp b1nom gamma : ℝ) :
     sig_wasabiti b0 rb1 t1 offset trec tp b1nom gamma = wasabiti b0 rb1 t1 offset trec tp b1nom gamma := by
   first | rfl | (simp only [sig_wasabiti, wasabiti, sq]; ring) | (simp only [sig_wasabiti, wasabiti, sq]; field_simp) | (simp only [sig_wasabiti, wasabiti, sq]; field_simp; ring)
 
+/-! `ConstraintsOp`: the four elementary maps as coded (through `torch.sigmoid / logsigmoid / logit / expm1`, expanded into
+`exp` and `log`) are the model functions (note the argument order: the source takes `x, beta`) -/
+theorem sig_c_sigmoid_eq (x β : ℝ) : sig_c_sigmoid x β = sigmoidT β x := by
+  first | rfl | (simp only [sig_c_sigmoid, sigmoidT]; ring_nf)
+theorem sig_c_sigmoid_inverse_eq (x β : ℝ) : sig_c_sigmoid_inverse x β = sigmoidInvT β x := by
+  first | rfl | (simp only [sig_c_sigmoid_inverse, sigmoidInvT]; ring_nf)
+theorem sig_c_softplus_eq (x β : ℝ) : sig_c_softplus x β = softplusT β x := by
+  first
+    | rfl
+    | (simp only [sig_c_softplus, softplusT, neg_mul, neg_neg]; ring)
+    | (simp only [sig_c_softplus, softplusT]; ring_nf)
+theorem sig_c_softplus_inverse_eq (x β : ℝ) : sig_c_softplus_inverse x β = softplusInvT β x := by
+  first
+    | rfl
+    | (simp only [sig_c_softplus_inverse, softplusInvT, neg_mul, neg_sub])
+    | (simp only [sig_c_softplus_inverse, softplusInvT, neg_mul, neg_sub]; ring)
+    | (simp only [sig_c_softplus_inverse, softplusInvT]; ring_nf)
+
 end M.SrcL
